@@ -4,11 +4,12 @@ C03 — conversion offers every matching dictionary word and only dictionary wor
 Model: Chokan.Model.Kkc.  Soundness is proved for every candidate (`C03_sound`); completeness at the head
 is proved at lattice level (`C03_head_word_is_node`) and at candidate level (`C03_complete_head`: with
 the regenerated score tables the path word + rest is connectable, and the optimal search of C02 returns
-it unless the list is cut at `n`).  The clause about words right after a leading prefix is checked per
-case by the executable oracle.
+it unless the list is cut at `n`), and likewise right after a leading prefix-affix
+(`C03_complete_after_prefix`) for every word the engine's own connection rule lets follow a prefix.
 -/
 import Chokan.Lemmas.KkcSource
 import Chokan.Lemmas.KkcComplete
+import Chokan.Lemmas.KkcPrefix
 import Chokan.Props.C02
 
 namespace Chokan.Props.C03
@@ -102,5 +103,49 @@ theorem C03_complete_head (input : Str) (d : Dict) (ctx : Ctx) (f : Freq) (n : N
   rcases hopt p s hch hps with h | ⟨h, _⟩
   · left; rw [← htext]; exact h
   · exact Or.inr h
+
+/-- **Completeness right after a leading prefix, candidate level.**  With the regenerated tables: for a
+prefix-affix `P` of the ancillary dictionary whose reading is `input[0..=k]` and an independent standard
+word `w` whose reading is `input[k+1..=i]`, if the engine's own connection rule lets `w` follow a prefix
+(`firstMatch2 prefix w.speech = some _`, i.e. `get_edge_score` is not "not connectable"), the candidate
+list contains the prefix's written form, the word's written form and the rest of the input verbatim —
+unless the list is full (`n` entries). -/
+theorem C03_complete_after_prefix (input : Str) (d : Dict) (ctx : Ctx) (f : Freq) (n : Nat) (hn : 1 ≤ n)
+    (hd : Dict.WF d) (k : Nat) (P : Word) (hP : P ∈ lookup d.ancTrie d.anc (slice input 0 k))
+    (hPsp : P.speech = .affix .prefix) (i : Nat) (hki : k + 1 ≤ i) (hi : i < input.length) (w : Word)
+    (hw : w ∈ lookup d.stdTrie d.std (slice input (k + 1) i)) (hind : w.speech.isAncillary = false)
+    (x : Nat) (hconn : firstMatch2 (.affix .prefix) w.speech genTables.wordEdges = some x) :
+    ∃ fuel0 R, ∀ fuel, fuel0 ≤ fuel →
+      getCandidates genTables input d ctx f n fuel = some R ∧
+      (P.word ++ w.word ++ input.drop (i + 1) ∈ R.map Cand.text ∨ R.length = n) := by
+  have hg0 : ∃ g0, fromInput genTables input d ctx = some g0 := ⟨_, rfl⟩
+  obtain ⟨g0, hg0⟩ := hg0
+  obtain ⟨fuel0, R, hall⟩ := C02.C02_full genTables input d ctx f n hn hd g0 hg0
+  obtain ⟨p, s, hch, hps, htext⟩ := prefix_path input d ctx f hd g0 hg0 k P hP hPsp i hki hi w hw hind x hconn
+  refine ⟨fuel0, R, ?_⟩
+  intro fuel hf
+  obtain ⟨hget, _, _, _, hopt⟩ := hall fuel hf
+  refine ⟨hget, ?_⟩
+  rcases hopt p s hch hps with h | ⟨h, _⟩
+  · left; rw [← htext]; exact h
+  · exact Or.inr h
+
+/-- The connection rule of the regenerated table: which parts of speech may follow a prefix. -/
+theorem C03_prefix_connects (sp : Speech) :
+    (firstMatch2 (.affix .prefix) sp genTables.wordEdges).isSome = true ↔
+      (Chokan.Gen.Kkc.wordEdges.find? fun r => r.1.matches (.affix .prefix) && r.2.1.matches sp).any
+        (fun r => r.2.2.isSome) = true := by
+  show (firstMatch2 (.affix .prefix) sp Chokan.Gen.Kkc.wordEdges).isSome = true ↔ _
+  generalize Chokan.Gen.Kkc.wordEdges = l
+  induction l with
+  | nil => simp [firstMatch2]
+  | cons a l ih =>
+    obtain ⟨p, c, s⟩ := a
+    unfold firstMatch2
+    by_cases hm : (p.matches (.affix .prefix) && c.matches sp) = true
+    · simp [hm, List.find?_cons]
+    · have hm' : (p.matches (.affix .prefix) && c.matches sp) = false := by simpa using hm
+      simp only [hm', Bool.false_eq_true, if_false, List.find?_cons]
+      exact ih
 
 end Chokan.Props.C03
